@@ -252,6 +252,14 @@ class SimNet:
 
     async def tcp_connect(self, loop, protocol_factory, host, port):
         self.connect_attempts += 1
+        # livelock guard: thousands of connection attempts at one virtual instant is an unbounded reconnect loop
+        if getattr(self, "_burst_t", None) == loop.time():
+            self._burst_n += 1
+            if self._burst_n > 3000:
+                from .vloop import VirtualLivelock
+                raise VirtualLivelock(f"{self._burst_n} connection attempts at virtual time {loop.time():.3f}")
+        else:
+            self._burst_t, self._burst_n = loop.time(), 1
         acceptor = self.listeners.get((host, port), self.default_tcp)
         if isinstance(acceptor, (str, BaseException)):
             policy = acceptor
